@@ -52,7 +52,7 @@ def plan(tier, seed):
 
 def floors(tier):
     return {'evaluations': 50000, 'distinct_nontrivial': 2000, 'mapping_checked': 100000,
-            'error_positions_checked': 1000, 'errors_on_later_lines': 100,
+            'error_positions_checked': 1000, 'errors_on_later_lines': 100, 'out_of_order_lookups': 100000, 'parses_after_earlier_lookup': 500, 'open_context_positions_checked': 2000, 'open_contexts_two_lines_above_error': 200,
             'histkeys:error_located_via': 9, 'hist:error_located_via:get_latex_braced_group': 50,
             'hist:error_located_via:expression_parser': 50}
 
@@ -147,6 +147,25 @@ def check_case(case, rec):
                 rec.violation(case, 'LineNumbersCalculator.pos_to_lineno_colno(%d) = %r on %r offsets %r: %s'
                               % (pos, got, s, offs, err), mech='calculator')
                 return
+        # the mapping is a function of the position alone: the same walker / calculator asked again in descending,
+        # strided and shuffled order (lookups jumping several lines back and forth)
+        import random as _random
+        order_rng = _random.Random(len(s) * 7919 + sum(map(ord, s)))
+        n = len(s) + 1
+        shuffled = list(range(n))
+        order_rng.shuffle(shuffled)
+        orders = [('descending', list(range(n - 1, -1, -1))), ('ends', [n - 1, 0, n - 1, n // 2, 0]),
+                  ('shuffled', shuffled)]
+        for oname, order in orders:
+            for obj, oname2 in ((lw, 'LatexWalker'), (calc, 'LineNumbersCalculator')):
+                for pos in order:
+                    got = obj.pos_to_lineno_colno(pos)
+                    rec.monitor('out_of_order_lookups')
+                    err, reading = check_mapping(s, pos, got, offs)
+                    if err:
+                        rec.violation(case, '%s.pos_to_lineno_colno(%d) = %r in a %s sequence of lookups on %r offsets %r: %s'
+                                      % (oname2, pos, got, oname, s, offs, err), mech='lookup-order')
+                        return
         if len(READINGS) > 1:
             rec.violation(case, 'both readings of the first-line column offset observed in one run', mech='reading')
     else:
@@ -154,6 +173,10 @@ def check_case(case, rec):
             lw = walker(s, tolerant=False, **offs)
             entry = case.get('entry', 'general')
             rec.hist('error_entry_point', entry)
+            if case.get('prelookup') is not None:
+                # the caller has already used the walker to locate some other position
+                rec.monitor('parses_after_earlier_lookup')
+                lw.pos_to_lineno_colno(min(len(s), int(case['prelookup'] * len(s))))
             ENTRY[entry](lw, case.get('start', 0))
             rec.hist('error_outcome', 'parsed')
             return
@@ -180,6 +203,23 @@ def check_case(case, rec):
             if tuple(want) != got:
                 rec.violation(case, 'parse error at pos %d reports %r but pos_to_lineno_colno gives %r' % (
                     pos, got, want), mech='errmapping2')
+                return
+            # the positions of the constructs that were open when the error occurred, listed in the error report
+            for octx in (e.open_contexts or []):
+                try:
+                    what, opos, olineno, ocolno = octx
+                except Exception:
+                    continue
+                if not isinstance(opos, int) or not (0 <= opos <= len(s)):
+                    continue
+                rec.monitor('open_context_positions_checked')
+                if s.count('\n', opos, pos) >= 2:
+                    rec.monitor('open_contexts_two_lines_above_error')
+                err, reading = check_mapping(s, opos, (olineno, ocolno), offs)
+                if err:
+                    rec.violation(case, 'parse error at pos %d lists open construct %r at pos %d with line/col %r on %r '
+                                  'offsets %r: %s' % (pos, what, opos, (olineno, ocolno), s, offs, err), mech='open-context')
+                    return
         except Exception as e:
             # foreign exception types are C05's business; count them here
             rec.hist('error_outcome', 'other:' + type(e).__name__)
@@ -259,6 +299,8 @@ def run_shard(desc, rec):
             rec.case()
             rec.nontrivial((s, sorted(offs.items())))
             case = {'kind': 'error', 's': s, 'offs': offs}
+            if j % 3 == 0:
+                case['prelookup'] = rng.choice([1.0, 1.0, 0.5, 0.0])
             if j % 97 == 0:
                 rec.sample(case)
             check_case(case, rec)
